@@ -62,7 +62,15 @@ pub fn close_position(
     // reduce weight
     // we reduce the weight to be equivalent to 1*amount, so we subtract by (weight - amount)
     // this should always be a valid operation as calculate_weight will return >= amount
-    let weight_to_reduce = calculate_weight(unbonding_duration, to_close_position.amount)?;
+    let mut user_weight = ADDRESS_WEIGHT
+        .may_load(deps.storage, info.sender.clone())?
+        .unwrap_or_default();
+
+    // the weight of the position was added in parts (opening plus every expansion), each of them
+    // rounded down, so the weight of the whole amount can be slightly bigger than what the user
+    // actually holds. Never remove more than that, neither from the user nor from the global weight.
+    let weight_to_reduce =
+        calculate_weight(unbonding_duration, to_close_position.amount)?.min(user_weight);
 
     // reduce the global weight
     GLOBAL_WEIGHT.update::<_, StdError>(deps.storage, |global_weight| {
@@ -70,9 +78,6 @@ pub fn close_position(
     })?;
 
     // reduce the weight for the user
-    let mut user_weight = ADDRESS_WEIGHT
-        .may_load(deps.storage, info.sender.clone())?
-        .unwrap_or_default();
     user_weight = user_weight.saturating_sub(weight_to_reduce);
     ADDRESS_WEIGHT.save(deps.storage, info.sender.clone(), &user_weight)?;
 
